@@ -61,6 +61,10 @@ def source_facts():
         "atomic": not re.search(r"storage\s*\.\s*ttl\s*\(", ws),
         # sorted-set items are materialised before the length is written
         "itemsFirst": bool(re.search(r"write_length\s*\(\s*items\s*\.\s*len\s*\(\s*\)\s*\)", wkv)),
+        # every saver holds one lock from opening the temporary file to renaming it (b09a77b): the guard is bound to a NAMED
+        # variable (lives to the end of `save`) before write_snapshot is called
+        "saveLock": bool((lambda b: b and re.search(r"let\s+_\w+\s*=\s*self\s*\.\s*save_lock\s*\.\s*lock\s*\(\)", b) and
+                          re.search(r"save_lock\s*\.\s*lock\s*\(\)[\s\S]*write_snapshot\s*\([\s\S]*rename\s*\(", b))(fn_body(rdb, "save"))),
         # read_string reads in bounded chunks instead of vec![0u8; len]
         "bounded": bool(re.search(r"read_to_end|\.take\s*\(", rs)) and not re.search(r"vec!\s*\[\s*0u8\s*;\s*len\s*\]", rs),
     })
@@ -160,6 +164,10 @@ class C10:
         self.impl_argv = [os.path.join(bindir, "impl_rdb")]
         self.impl = LineProc(self.impl_argv, "impl-rdb-c10")
         self.impl_loads = 0
+        # the same loader built like a plain `cargo build` (overflow checks on): part D runs every file through it as well
+        self.implc_argv = [os.path.join(CACHE, "target-harness-checked", "debug", "impl_rdb")]
+        self.implc = LineProc(self.implc_argv, "impl-rdb-c10-checked") if os.path.exists(self.implc_argv[0]) else None
+        self.implc_loads = 0
         self.model = LineProc(["sh", "-c", "ulimit -s 2000000 2>/dev/null || ulimit -s unlimited 2>/dev/null; exec " + os.path.join(LEAN_BIN, "drv_" + FAMILY)], "lean-" + FAMILY)
         if self.model.ask(R.cfg_line(facts)) != "ok":
             raise InternalError("Lean driver refused cfg")
@@ -231,11 +239,29 @@ class C10:
         w = a.split(" ")
         now = (int(w[1]) + int(w[2])) // 2
         ds = None
-        if w[0] == "ok":
+        if w[0] in ("ok", "err"):                 # after a refused file: what the failed load left in the engine
             d = self.impl_ask("dump")
             dw = d.split(" ")
             ds = R.canon(R.parse(dw[2:] if len(dw) > 2 else ["."]))
         return (w[0], int(w[3]), ds, now, "")
+
+    def checked_load(self, f):
+        """the loader with the arithmetic of the default build: 'panic' | 'died' | 'hang' | other"""
+        if self.implc is None:
+            return "absent"
+        self.implc_loads += 1
+        if self.implc_loads % 1500 == 0:
+            self.implc.close()
+            self.implc = LineProc(self.implc_argv, "impl-rdb-c10-checked")
+        try:
+            a = self.implc.ask("load " + hx(f))
+        except DriverHang:
+            self.implc.close()
+            self.implc = LineProc(self.implc_argv, "impl-rdb-c10-checked")
+            return "hang"
+        if a is None:
+            return "alloc" if "ALLOC-REFUSED" in (self.implc.stderr_tail or "") else "died"
+        return "panic" if a.startswith("panic") else a.split(" ")[0]
 
     def lean_dec(self, now, f):
         w = self.mask("decsnap %d %s" % (now, hx(f))).split(" ")
@@ -596,12 +622,82 @@ class C10:
         if m["dump"] != hx(final):
             self.disagreements.append({"what": "C: final dump differs from the file-system model's prediction", "real": hx(final), "model": m["dump"], "log": m["log"]})
 
+    # ============================================================ F: two savers at once (SHUTDOWN's save during a background save)
+    def part_f(self, quick):
+        """SHUTDOWN saves without looking at the background-save flag.  A background save is started on a dataset big enough
+        to take a while, SHUTDOWN follows when it is well under way, and the server is KILLED at the instant the dump name
+        changes its file for the first time: "at every instant the dump file is either absent or a complete snapshot" —
+        the file found then must load and hold the whole dataset."""
+        import signal
+        rep = self.rep
+        n = 120000
+        for attempt in range(2 if quick else 5):
+            srv, c = self.fresh_server()
+            c.timeout = 60.0
+            val = b"v" * 48
+            for base in range(0, n, 4000):
+                c.send_raw(b"".join(c.encode([b"SET", b"f:%07d" % i, val]) for i in range(base, base + 4000)))
+                for _ in range(4000):
+                    c.read_reply(timeout=60.0)
+            t0 = time.time()
+            if c.cmd("SAVE", timeout=120.0) != ("s", b"OK"):
+                raise InternalError("part F: clean SAVE failed")
+            t_save = time.time() - t0
+            path = os.path.join(srv.dir, "dump.rdb")
+            ino0 = os.stat(path).st_ino
+            c.cmd("SET", b"marker", b"after-first-save")
+            c.send(b"BGSAVE")
+            c.read_reply(timeout=10.0)
+            time.sleep(t_save * (0.55 + 0.1 * attempt))
+            c.send(b"SHUTDOWN")
+            t1 = time.time()
+            changed = False
+            while time.time() - t1 < 60.0:
+                try:
+                    if os.stat(path).st_ino != ino0:
+                        changed = True
+                        break
+                except FileNotFoundError:
+                    pass
+                if srv.p.poll() is not None:
+                    break
+            try:
+                os.kill(srv.p.pid, signal.SIGKILL)
+            except ProcessLookupError:
+                pass
+            srv.p.wait()
+            rep.evaluations += 1
+            rep.count("F.shutdown-during-bgsave.%s" % ("killed-at-first-rename" if changed else "no-rename-seen"))
+            f = open(path, "rb").read() if os.path.exists(path) else None
+            replay = {"kind": "two-savers", "keys": n, "save_seconds": round(t_save, 3), "shutdown_sent_after": round(t_save * (0.55 + 0.1 * attempt), 3)}
+            if f is None:
+                self.fail("the dump is absent after BGSAVE + SHUTDOWN although a complete dump existed before", replay)
+            else:
+                st = self.real_load(f)
+                keys = None if st[2] is None else len(st[2])
+                rep.nontrivial(("F", changed, st[0], keys == n + 1))
+                if st[0] != "ok" or keys != n + 1:
+                    what = ("at the instant the dump name first pointed to a new file after BGSAVE + SHUTDOWN that file (%d bytes) %s — two savers wrote the one temporary file at once"
+                            % (len(f), "does not load (%s)" % st[0] if st[0] != "ok" else "holds %s of %d keys" % (keys, n + 1)))
+                    if self.facts["saveLock"]:
+                        self.fail(what, replay)
+                    else:
+                        self.fail(what + " (RdbEngine::save holds no lock: source scan)", replay)
+                    self.srv = None
+                    srv.stop()
+                    return
+            self.srv = None
+            srv.stop()
+        if not self.facts["saveLock"]:
+            self.disagreements.append({"what": "F: RdbEngine::save does not hold save_lock from open to rename (source scan), yet the two-saver scenario left a complete dump every time: "
+                                               "the locked file-system model (runL) no longer describes the code"})
+
     # ============================================================ D: corrupted files through the real loader
     def part_d(self, r, files, quick):
         rep = self.rep
         bounded = self.facts["bounded"]
 
-        def one(name, f, kind):
+        def one(name, f, kind, whole=None):
             rep.evaluations += 1
             lm = self.mask("allocs %d 0 %s" % (bounded, hx(f)))
             mal = max([int(x) for x in lm.split(",")] if lm != "." else [0])
@@ -613,6 +709,13 @@ class C10:
                     return
                 self.notes["huge_alloc_runs"] = self.notes.get("huge_alloc_runs", 0) + 1
             st = self.real_load(f)
+            if not (not bounded and mal > (900 << 20)):
+                cst = self.checked_load(f)
+                rep.count("D.checked-arithmetic.%s" % cst)
+                if cst in ("panic", "died", "hang") and st[0] not in ("panic", "died", "hang"):
+                    self.fail("the loader %s on a %d-byte corrupted file when built like a plain `cargo build` (overflow checks on); with wrapping arithmetic it answers '%s'" % (
+                        {"panic": "panics", "died": "dies", "hang": "hangs"}[cst], len(f), st[0]), {"kind": "file", "file": hx(f), "name": name, "build": "overflow-checks"})
+                    return
             rep.count("D.%s.%s" % (kind, st[0]))
             rep.nontrivial(("D", kind, st[0], min(mal, 1 << 40).bit_length() // 4, len(f) // 32))
             replay = {"kind": "file", "file": hx(f), "name": name}
@@ -633,6 +736,18 @@ class C10:
                     self.fail("allocation of %d bytes for a %d-byte file although read_string looks bounded" % (st[1], len(f)), replay)
                 else:
                     self.known("alloc-by-length-field", "a %d-byte file makes the loader allocate %d bytes" % (len(f), st[1]), replay)
+            # "… or a clean partial load": whatever a cut file leaves in the engine, each key it leaves is a key of the whole
+            # file with the whole value and its deadline — never the first k elements of a list / sorted set / stream, and never
+            # a key that lost its time to live because the record ended before the deadline was applied
+            if whole is not None and st[2] is not None:
+                rep.count("D.prefix.keys-left-by-%s-load=%s" % (st[0], min(len(st[2]), 3) if len(st[2]) < 3 else "3+"))
+                for k, v in sorted(st[2].items()):
+                    wv = whole.get(k)
+                    if wv is None or wv[1:] != v[1:] or (wv[0] is None) != (v[0] is None) or (wv[0] is not None and abs(wv[0] - v[0]) > TOL):
+                        self.fail("a dump cut after %d of its bytes leaves key %r of db %d as %s; in the whole file it is %s (a failed or partial load must not "
+                                  "leave a key with a value or time to live it never had)" % (len(f), k[1], k[0], R.describe_canon(v) if hasattr(R, "describe_canon") else repr(v)[:160],
+                                                                                              "absent" if wv is None else (R.describe_canon(wv) if hasattr(R, "describe_canon") else repr(wv)[:160])), replay)
+                        break
             # correspondence with the model loader
             md = self.lean_dec(st[3], f)
             if md[0] != st[0]:
@@ -647,12 +762,22 @@ class C10:
 
         # the witness of the Lean lemma and its relatives first
         hdr = b"REDIS0009"
+
+        def bs(x):
+            return bytes([len(x)]) + x
+        for cnt in (b"9223372036854775807", b"9223372036854775808", b"18446744073709551615", b"18446744073709551614", b"6148914691236517205", b"4611686018427387904"):
+            # a stream record whose field count (a decimal string of the file) makes `entry_idx + count * 2` overflow
+            rec = b"\x01" + bs(b"st") + bytes([7]) + bs(R.MARKER) + bs(b"1-1") + bs(cnt) + bs(b"f") + bs(b"v") + bs(b"g") + bs(b"w")
+            one("stream-field-count-" + cnt.decode(), hdr + b"\xfe\x00" + rec + b"\xff" + b"\0" * 8, "handmade")
         for name, f in [("witness-4GiB", hdr + b"\xfa\x80\xff\xff\xff\xff"), ("alloc-256MiB", hdr + b"\xfa\x90\x00\x00\x00"), ("alloc-100MiB-key", hdr + b"\x00\x86\x40\x00\x00"),
                         ("alloc-65MiB-member", hdr + b"\x03\x01z\x01\x84\x10\x00\x00")]:
             one(name, f, "handmade")
         for fi, f in enumerate(files):
+            whole = self.real_load(f)
+            if whole[0] != "ok":
+                raise InternalError("part D: the server's own dump does not load: %r" % (whole[0],))
             for i in range(len(f) + 1):
-                one("prefix-%d-%d" % (fi, i), f[:i], "prefix")
+                one("prefix-%d-%d" % (fi, i), f[:i], "prefix", whole=whole[2])
             if quick:
                 for _ in range(500):
                     i = r.below(len(f))
@@ -773,6 +898,7 @@ class C10:
         part("B", lambda: self.part_b(r.fork("B"), quick))
         part("C", lambda: self.part_c())
         part("E", lambda: self.part_e(quick))
+        part("F", lambda: self.part_f(quick))
         # three small valid dumps: three databases, all six types, and one string key with a TTL
         srv, c = self.fresh_server()
         c.cmd("SET", b"k", b"v", "PX", str(LONG))
@@ -814,6 +940,7 @@ def main(tier, seed):
     rep.extra["source_facts"] = facts
     ok, log, errs = proof_phase(rep, families=[FAMILY])
     build_harness("rdb")
+    build_harness("rdb", checked=True)
     if os.environ.get("VERIF_SERVER_BIN"):
         pass          # sanity test against a separately built server: never build into the shared cache from another source tree
     elif os.path.realpath(REPO) != "/repo" and not os.environ.get("VERIF_CACHE"):
